@@ -1,3 +1,45 @@
-(* C03 - placeholder while the invariant is built *)
-From Tramp Require Import Model.Base Model.Sys.
-Theorem C03_placeholder : True. Proof. exact I. Qed.
+(* C03 — pay only when fully covered, for the right amount, within the held budget.
+
+   "The plugin asks the node to pay only when the HTLCs it is holding unanswered for that hash total
+    at least the amount to deliver plus the policy fee, and the fee budget it grants never exceeds
+    (held total - amount to deliver). It pays the invoice's own amount for fixed-amount invoices and
+    exactly the sender-declared amount for amountless ones, and the HTLCs counted stay held until the
+    payment's fate is known."
+
+   Model: Model/Sys.v (per-hash composite system after the D3/D3b repairs). [reachable] starts from ANY
+   durable node state, clock and height and closes under ANY event (HTLC arrival, node processing an RPC
+   with or without fault, reply delivery, part resolution, pay progress, ticks, height changes, crashes):
+   no bound on the number of HTLCs, events or crashes. [sum_amt] is the UNBOUNDED sum of the amounts of
+   the HTLCs held (the listeners of the table entry = delivered and not yet answered since the entry was
+   created; after a crash only replayed HTLCs are listeners). *)
+From Tramp Require Import Model.Base Model.Fee Model.Classify Model.Node Model.Provider Model.Sys.
+From Tramp Require Import Proofs.SysBasics Proofs.EntryProofs Proofs.SysEntry Proofs.SysShape Proofs.SysTheorems Proofs.SysReach.
+
+Theorem C03_pay_covered : forall c s ev cid b am mf md rt,
+  reachable c s -> In (OCall cid (QPay b am mf md rt)) (snd (step c s ev)) ->
+  exists en, entry_ (pl s) = Some en /\ entry_ (pl (fst (step c s ev))) = Some en /\
+    (* covered: held total >= amount to deliver + base fee + proportional fee *)
+    e_deliver en + fee_base (pol c) + e_deliver en * fee_ppm (pol c) / 1000000 <= sum_amt (listeners en) /\
+    (* fee budget within what is held beyond the amount to deliver *)
+    mf <= sum_amt (listeners en) - e_deliver en /\
+    (* the invoice's own amount (no amount argument) or exactly the declared amount *)
+    am = match e_inv_amount en with Some _ => None | None => Some (e_deliver en) end /\
+    b = e_blob en /\ rt = retry_for c /\ md <= pol_delta (pol c) /\
+    (* nobody is answered in the step that issues the pay request *)
+    resps (snd (step c s ev)) = [].
+Proof.
+  intros c s ev cid b am mf md rt Hr Hin. destruct (reachable_inv c s Hr) as (HU & HE & _).
+  destruct (pay_request_facts c s ev cid b am mf md rt HU HE Hin) as (en & A & B & C & D & E & F & G & H & I).
+  exists en. auto 12.
+Qed.
+
+(* the HTLCs counted stay held until the payment's fate is known: while the pay request is outstanding, the only event
+   that makes the plugin answer HTLCs of this hash is the delivery of the reply to that request *)
+Theorem C03_held_until_fate : forall c s ev i x k a g,
+  reachable c s -> nth_error (lcs (pl s)) i = Some x -> l_pc x = PPay k a g ->
+  resps (snd (step c s ev)) <> [] -> exists sel, ev = EvDeliver k sel.
+Proof. intros c s ev i x k a g Hr. destruct (reachable_inv c s Hr) as (HU & _). exact (held_while_paying c s ev i x k a g HU). Qed.
+
+(* the received total only grows while the entry lives, and saturates instead of wrapping (after the D3b repair) *)
+Theorem C03_received_is_saturated_sum : forall c s e, reachable c s -> entry_ (pl s) = Some e -> recv e = N.min u64max (sum_amt (listeners e)).
+Proof. intros c s e Hr He. destruct (reachable_inv c s Hr) as (_ & HE & _). exact (ei_recv c e (ie_entry c s HE e He)). Qed.
